@@ -4,3 +4,6 @@ verif_driver(drv_units ${D}/units.cc)
 target_include_directories(drv_units PRIVATE ${VERIF_REPO}/csg/src/libcsg)
 # a new enumerator in unitconverter.h must break the build of the name tables (spec tables would be stale)
 target_compile_options(drv_units PRIVATE -Werror=switch)
+# csg_boltzmann's BondedStatistics / TabulatedPotential (object library of the repository, as its unit test links it)
+target_link_libraries(drv_units PRIVATE votca_csg_boltzmann)
+target_include_directories(drv_units PRIVATE ${VERIF_REPO}/csg/src)
